@@ -33,6 +33,11 @@ theorem skel_gorumsMarshal_good : Generated.skel_gorumsMarshal = Skeletons.expec
 theorem skel_gorumsUnmarshal_good : Generated.skel_gorumsUnmarshal = Skeletons.expected_skel_gorumsUnmarshal := by decide
 theorem skel_CodecMarshal_good : Generated.skel_CodecMarshal = Skeletons.expected_skel_CodecMarshal := by decide
 theorem skel_CodecUnmarshal_good : Generated.skel_CodecUnmarshal = Skeletons.expected_skel_CodecUnmarshal := by decide
+theorem skel_NewCodec_good : Generated.skel_NewCodec = Skeletons.expected_skel_NewCodec := by decide
+/-- the protobuf decoder the codec is configured with keeps the fields it cannot interpret: the round-trip
+    hypothesis on the oracle (`unmarshal (marshal m) = m`, also for messages carrying undeclared fields) is about
+    the decoder as configured in `NewCodec` -/
+theorem keepsUnknown_good : Generated.codec_keepsUnknown = true := by decide
 theorem skel_newMessage_good : Generated.skel_newMessage = Skeletons.expected_skel_newMessage := by decide
 theorem skel_WrapMessage_good : Generated.skel_WrapMessage = Skeletons.expected_skel_WrapMessage := by decide
 
@@ -43,6 +48,8 @@ open GorumsV.Tie.C13 GorumsV.C13
 #print axioms assertChecked_good
 #print axioms direction_arms_good
 #print axioms tree_unmarshal_total
+#print axioms skel_NewCodec_good
+#print axioms keepsUnknown_good
 #print axioms skel_gorumsMarshal_good
 #print axioms skel_gorumsUnmarshal_good
 #print axioms skel_CodecMarshal_good
